@@ -449,7 +449,7 @@ def code_paths(cells, mode, tok, report_unmapped):
     return out
 
 
-def compare(cells, modes_in_code, report_ok, report_bad, notes=None, summaries=None, only_modes=None):
+def compare(cells, modes_in_code, report_ok, report_bad, notes=None, summaries=None, only_modes=None, extra_tokens=None):
     global PURE_SUMM
     PURE_SUMM = summaries
     spec = load_rows()
@@ -457,8 +457,11 @@ def compare(cells, modes_in_code, report_ok, report_bad, notes=None, summaries=N
     unmapped = set()
     names_in_code = dc.names_in(cells)
     for mode in sorted(spec.ROWS):
+        restrict = None
         if only_modes is not None and mode not in only_modes:
-            continue
+            if not extra_tokens:
+                continue
+            restrict = set(extra_tokens)  # of the other modes only these token classes
         if mode not in modes_in_code:
             report_bad("mode:" + mode, "mode-missing", "insertion mode %s of the standard does not exist in the code" % mode)
             continue
@@ -479,6 +482,8 @@ def compare(cells, modes_in_code, report_ok, report_bad, notes=None, summaries=N
                     expanded.append(t)
             for tok in expanded:
                 if tok in skip or (mode, tok) in seen_tokens:
+                    continue
+                if restrict is not None and tok not in restrict:
                     continue
                 seen_tokens.add((mode, tok))
                 key = "row:%s/%s" % (mode, tok)
